@@ -13,6 +13,8 @@ decimal numbers separated by commas, `-` for the empty list.  Python values:
   new <w> <pyval>                       -> ok <units of the new T[] array> | err <Kind>
   newn <w> <len> <pyval>                -> ok <units of the new T[len] array> | err <Kind>
   assign <w> <mem> <pyval>              -> ok <units after storing into T[len(mem)] holding mem> | err <Kind>
+  assignopen <w> <mem> <pyval>          -> ok <units after storing through the open type T[] (ct_length = -1) into
+                                           memory holding mem: uncleared allocation, flexible array member> | err <Kind>
   string <w> <mem> <maxlen> <arraylen>  -> ok <pyval> | err <Kind>
   unpack <w> <mem> <n>                  -> ok <pyval> | err <Kind>
 -/
@@ -69,6 +71,10 @@ def step (_ : Unit) : List String → Unit × String
   | ["assign", w, mem, v] =>
     match width? w, natList? mem, pyVal? v with
     | some w, some mem, some v => ((), answer showList (convertArray w (some mem.length) mem v))
+    | _, _, _ => ((), "bad-op")
+  | ["assignopen", w, mem, v] =>
+    match width? w, natList? mem, pyVal? v with
+    | some w, some mem, some v => ((), answer showList (convertArray w none mem v))
     | _, _, _ => ((), "bad-op")
   | ["string", w, mem, maxlen, alen] =>
     match width? w, natList? mem, optLen? maxlen, optLen? alen with
